@@ -26,14 +26,24 @@ def strip_comments(src):
     src = re.sub(r'--.*', '', src)
     return src
 
-def grep_forbidden():
-    hits = []
-    for path in glob.glob(os.path.join(LEAN_DIR, '**', '*.lean'), recursive=True):
-        if '/.lake/' in path or '/.audit/' in path:
+def local_deps(prop):
+    """transitive closure of the project-local imports of Props/<prop>.lean (paths relative to LEAN_DIR)"""
+    seen, todo = [], ['Props/%s.lean' % prop]
+    while todo:
+        rel = todo.pop()
+        if rel in seen or not os.path.exists(os.path.join(LEAN_DIR, rel)):
             continue
-        src = strip_comments(open(path).read())
+        seen.append(rel)
+        for m in re.finditer(r'^import\s+((?:BycycleModel|Proofs|Props)[\w.]*)', open(os.path.join(LEAN_DIR, rel)).read(), re.M):
+            todo.append(m.group(1).replace('.', '/') + '.lean')
+    return seen
+
+def grep_forbidden(prop):
+    hits = []
+    for rel in local_deps(prop):
+        src = strip_comments(open(os.path.join(LEAN_DIR, rel)).read())
         for m in FORBIDDEN.finditer(src):
-            hits.append('%s: %s' % (os.path.relpath(path, LEAN_DIR), m.group(0).strip()))
+            hits.append('%s: %s' % (rel, m.group(0).strip()))
     return hits
 
 def prepare(prop, theorems, tier='quick', regen=None):
@@ -53,7 +63,7 @@ def prepare(prop, theorems, tier='quick', regen=None):
         build_ok = rc == 0
         if not build_ok:
             res['log'] += '--- lake build Props.%s failed\n' % prop + out[-6000:]
-        res['forbidden'] = grep_forbidden()
+        res['forbidden'] = grep_forbidden(prop)
         # axiom audit (only meaningful when the module built)
         if build_ok:
             os.makedirs(os.path.join(LEAN_DIR, '.audit'), exist_ok=True)
